@@ -345,7 +345,7 @@ def heredoc_cases(ctx):
                 cases.append((dash, tw, [a], "plain"))
             for a, b in itertools.product(LINE_ATOMS[:15], repeat=2):
                 cases.append((dash, tw, [a, b], "plain"))
-    for _ in range(ctx.size(700, 12000)):
+    for _ in range(ctx.size(500, 12000)):
         dash = rng.random() < 0.4
         tw = rng.choice(TAGWORDS)
         n = rng.choice([0, 1, 2, 2, 3, 4, 6])
@@ -726,7 +726,7 @@ def run(ctx):
                         hd_cases.append((rec["dash"], rec["tag"], rec["lines"], rec.get("layout", "plain")))
     fd_cases += exhaustive_cases()
     rng = ctx.rng
-    for i in range(ctx.size(1500, 25000)):
+    for i in range(ctx.size(1200, 25000)):
         g = Gen(random.Random(rng.getrandbits(48)), move=(i % 10 == 0))
         fd_cases.append((rng.random() < 0.25, g.script(), "rand"))
     scripts, bouts = decide_fd(ctx, fd_cases)
@@ -755,6 +755,22 @@ def replay(ctx, rp):
     ok, out = lib.cargo_build([BIN])
     case = rp["case"]
     script = case.get("script")
+    if script is None and "lines" in case:
+        # here-document, tokenizer level
+        text = case["text"]
+        src = "cat %s%s\n%s" % ("<<-" if case["dash"] else "<<", case["tag"], text)
+        _, t, _ = lib.run_vh(BIN, ["T " + esc(src)], args=[lib.BRUSH, lib.BASH])
+        m = lib.run_drv(["C10 H %d %s %s" % (1 if case["dash"] else 0, esc(case["tag"]), esc(text))])
+        print("source:\n" + src)
+        print("brush tokens:", [unesc(x[1:]) for x in t[0].split(" ")[1:]] if t and t[0].startswith("ok") else t)
+        f = m[0].split(" ")
+        print("model:       ", ("body=%r rest=%r" % (unesc(f[2]), unesc(f[3]))) if f[0] == "ok" else m[0])
+        if f[0] != "ok":
+            return 0 if t and t[0].startswith("err Unterminated") else 1
+        if not (t and t[0].startswith("ok")):
+            return 1
+        tt = t[0].split(" ")[1:]
+        return 0 if len(tt) >= 5 and unesc(tt[3][1:]) == unesc(f[2]) else 1
     if script is None:
         print(json.dumps(case, indent=1))
         return 1
